@@ -8,7 +8,9 @@ package server
 
 import (
 	"context"
+	"encoding/json"
 	"fmt"
+	"os"
 	"testing"
 	"time"
 
@@ -72,7 +74,17 @@ func vC18ReadActivity(v *vServer) ([]vM, error) {
 		return nil, st.Err()
 	}
 	out := []vM{}
-	idle := time.NewTimer(80 * time.Millisecond)
+	// read up to the end of the partition's log as it is now; the idle timer only ends the read once
+	// that offset has been delivered, or after 3 s without it (then what is missing is in the log
+	// but not committed, which the caller reports as such)
+	target := p.log.NewestOffset()
+	wait := func(last int64) time.Duration {
+		if last < target {
+			return 3 * time.Second
+		}
+		return 80 * time.Millisecond
+	}
+	idle := time.NewTimer(wait(-1))
 	for {
 		select {
 		case m := <-sub.Messages():
@@ -87,7 +99,7 @@ func vC18ReadActivity(v *vServer) ([]vM, error) {
 				default:
 				}
 			}
-			idle.Reset(80 * time.Millisecond)
+			idle.Reset(wait(m.Offset))
 		case e := <-sub.Errors():
 			return out, fmt.Errorf("subscription error: %s", e.Message())
 		case <-idle.C:
@@ -112,6 +124,9 @@ type vC18Case struct {
 func (c *vC18Case) violation(sig, what string) {
 	if c.viol == "" {
 		c.viol, c.vsig = what, sig
+	}
+	if os.Getenv("VERIF_TRACE") != "" {
+		println("TRACE violation", sig, what)
 	}
 }
 
@@ -207,6 +222,10 @@ func (c *vC18Case) note(op string, extra vM) {
 		e[k] = v
 	}
 	c.sched = append(c.sched, e)
+	if os.Getenv("VERIF_TRACE") != "" {
+		b, _ := json.Marshal(e)
+		println("TRACE", string(b))
+	}
 }
 
 func (c *vC18Case) block(on bool) {
@@ -321,6 +340,17 @@ func TestVerifC18(t *testing.T) {
 				rn := srv.s.getRaft()
 				rn.ReloadConfig(raft.ReloadableConfig{TrailingLogs: uint64(r.intn(3)), SnapshotInterval: time.Hour, SnapshotThreshold: 1 << 30, HeartbeatTimeout: time.Second, ElectionTimeout: time.Second})
 				c.scanLog()
+				if os.Getenv("VERIF_TRACE") != "" {
+					fi, _ := rn.store.FirstIndex()
+					la, _ := rn.store.LastIndex()
+					for i := fi; i <= la; i++ {
+						l := new(raft.Log)
+						if rn.store.GetLog(i, l) == nil {
+							println("TRACE raft", i, int(l.Type), fmt.Sprint(c.history[i]))
+						}
+					}
+					println("TRACE commit", rn.getCommitIndex(), "lastpub", srv.s.activity.LastPublishedRaftIndex(), "want", c.lastEventIndex())
+				}
 				serr := rn.Snapshot().Error()
 				c.note("snapshot", vM{"ok": serr == nil})
 			default:
@@ -425,7 +455,11 @@ func vC18Oracle(c *vC18Case, hist []vM, events []vM) {
 		}
 	}
 	if next < len(order) && c.viol == "" {
-		c.violation("event-missing", fmt.Sprintf("the operation committed at Raft index %d (%s) never appears in the activity stream (%d of %d operations delivered)", order[next], evOp[order[next]], next, len(order)))
+		diag := ""
+		if p := c.srv.s.metadata.GetPartition(activityStream, 0); p != nil {
+			diag = fmt.Sprintf("; activity partition: newest offset %d, high watermark %d, leader %v", p.log.NewestOffset(), p.log.HighWatermark(), p.IsLeader())
+		}
+		c.violation("event-missing", fmt.Sprintf("the operation committed at Raft index %d (%s) never appears in the activity stream (%d of %d operations delivered)%s", order[next], evOp[order[next]], next, len(order), diag))
 	}
 	c.stats["events-delivered"] += len(events)
 	c.stats["operations"] += len(order)
